@@ -550,7 +550,7 @@ Proof.
 Qed.
 
 Definition ev_inside (ext : str) (out : path) (e : event) : Prop :=
-  match e with WriteFile p => inside_file ext out p | RemoveAll q => prefix out q end.
+  match e with WriteFile p => inside_file ext out p | RemoveAll q => prefix out q | Refuse => True end.
 
 Lemma file_of_parent ext out : out <> [] -> removelast (file_of ext out) = removelast out.
 Proof.
@@ -589,7 +589,7 @@ Section Step.
   Lemma step_files_new f e en : ev_inside ext out e ->
     In en (files (fst (step f e))) -> inside_file ext out (fst en) \/ In en (files f).
   Proof.
-    destruct e as [q|p]; cbn [step ev_inside]; intros Hin Hen.
+    destruct e as [q|p|]; cbn [step ev_inside]; intros Hin Hen; [| |now right].
     - cbn in Hen. apply filter_In in Hen. tauto.
     - destruct (existsb (is_file f) (prefixes (removelast p))); [now right|].
       destruct (is_dir f p); cbn in Hen; [now right|].
@@ -599,7 +599,7 @@ Section Step.
   Lemma step_files_kept f e en : ev_inside ext out e ->
     In en (files f) -> inside_file ext out (fst en) \/ In en (files (fst (step f e))).
   Proof.
-    destruct e as [q|p]; cbn [step ev_inside]; intros Hin Hen.
+    destruct e as [q|p|]; cbn [step ev_inside]; intros Hin Hen; [| |now right].
     - destruct (prefix_b q (fst en)) eqn:E.
       + left. right. apply prefix_b_iff in E. exact (prefix_trans _ _ _ Hin E).
       + right. cbn. apply filter_In. split; [exact Hen | now rewrite E].
@@ -613,7 +613,7 @@ Section Step.
   Lemma step_dirs_new f e d : ev_inside ext out e -> Anc out f ->
     In d (dirs (fst (step f e))) -> prefix out d \/ In d (dirs f).
   Proof.
-    destruct e as [q|p]; cbn [step ev_inside]; intros Hin HA Hd.
+    destruct e as [q|p|]; cbn [step ev_inside]; intros Hin HA Hd; [| |now right].
     - cbn in Hd. apply filter_In in Hd. tauto.
     - destruct (existsb (is_file f) (prefixes (removelast p))); [now right|].
       assert (H : In d (fold_left add_dir (prefixes (removelast p)) (dirs f)) -> prefix out d \/ In d (dirs f)).
@@ -625,7 +625,7 @@ Section Step.
   Lemma step_dirs_kept f e d : ev_inside ext out e ->
     In d (dirs f) -> prefix out d \/ In d (dirs (fst (step f e))).
   Proof.
-    destruct e as [q|p]; cbn [step ev_inside]; intros Hin Hd.
+    destruct e as [q|p|]; cbn [step ev_inside]; intros Hin Hd; [| |now right].
     - destruct (prefix_b q d) eqn:E.
       + left. apply prefix_b_iff in E. exact (prefix_trans _ _ _ Hin E).
       + right. cbn. apply filter_In. split; [exact Hd | now rewrite E].
@@ -672,7 +672,7 @@ Proof.
   intro Hs. unfold safe_names in Hs. apply andb_prop in Hs as [Hn Hs].
   destruct (render_inside ext root Hs out) as [Hw Hr]. cbv zeta in *.
   assert (En : stem_of out (bname root) = out) by (unfold stem_of; now rewrite Hn).
-  rewrite En in *. apply Forall_forall. intros [q|p] He.
+  rewrite En in *. apply Forall_forall. intros [q|p|] He; [| |exact I].
   - cbn. apply Hr. unfold removes. apply in_flat_map. exists (RemoveAll q). split; [exact He | now left].
   - cbn. destruct (Hw p) as [->|[r [_ ->]]].
     + unfold writes. apply in_flat_map. exists (WriteFile p). split; [exact He | now left].
@@ -685,14 +685,14 @@ Proof. unfold entry_eqb. rewrite N.eqb_refl, andb_true_r. now apply path_eqb_eq.
 
 (* fs-level statement of "nothing outside the location is created, overwritten or deleted",
    with the very predicates Check.v evaluates on the real listings *)
-Lemma render_confined ext out root f :
-  safe_names ext root = true -> ancestors_exist out f = true ->
-  let f' := fst (run (render ext out root) f) in
+Lemma events_confined ext out es f :
+  Forall (ev_inside ext out) es -> ancestors_exist out f = true ->
+  let f' := fst (run es f) in
   no_creation_outside ext out (files f) (files f') (dirs f) (dirs f') = true
   /\ no_deletion_outside ext out (files f) (files f') (dirs f) (dirs f') = true.
 Proof.
-  intros Hs HA. cbv zeta.
-  destruct (run_confined ext out _ f (render_events_inside ext out root Hs) (ancestors_exist_Anc _ _ HA))
+  intros Hes HA. cbv zeta.
+  destruct (run_confined ext out _ f Hes (ancestors_exist_Anc _ _ HA))
     as [B1 [B2 [B3 B4]]]. cbv zeta in *.
   unfold no_creation_outside, no_deletion_outside. rewrite !andb_true_iff, !forallb_forall. repeat split.
   - intros en H. apply orb_true_iff. destruct (B1 en H) as [H'|H'].
@@ -709,30 +709,166 @@ Proof.
     + right. apply existsb_exists. exists d. split; [exact H' | now apply path_eqb_eq].
 Qed.
 
+(* ---------- the '..' guard (fix b8f1f57d8) ---------- *)
+
+Lemma name_ok_no_dotdot ext n : name_ok ext n -> has_dotdot n = false.
+Proof.
+  intros [_ H2 _ H4 _ _]. unfold has_dotdot. rewrite split_slash_noslash by exact H2. cbn [existsb].
+  apply str_eqb_neq in H4. now rewrite H4.
+Qed.
+
+Lemma safe_below_names ext : forall b, safe_below ext b = true -> Forall (name_ok ext) (names_below b).
+Proof.
+  induction b as [n fo ls ss ts Il Is It] using board_ind'. intro Hs.
+  destruct (safe_below_unfold _ _ _ _ _ _ Hs) as [Hnames [_ [Sl [Ss St]]]].
+  apply Forall_app in Hnames as [Nl Hnames]. apply Forall_app in Hnames as [Ns Nt].
+  assert (K : forall l : list board,
+            Forall (fun b => safe_below ext b = true -> Forall (name_ok ext) (names_below b)) l ->
+            Forall (fun c => name_ok ext (bname c)) l -> Forall (fun c => safe_below ext c = true) l ->
+            Forall (name_ok ext) (flat_map (fun c => bname c :: names_below c) l)).
+  { intros l IH Nk Sk. rewrite Forall_forall in IH, Nk, Sk. apply Forall_forall. intros x Hx.
+    apply in_flat_map in Hx as [c [Hc [<-|Hx]]]; [now apply Nk|].
+    specialize (IH c Hc (Sk c Hc)). rewrite Forall_forall in IH. now apply IH. }
+  cbn [names_below]. apply Forall_app. split; [now apply K|]. apply Forall_app. split; now apply K.
+Qed.
+
+Lemma safe_not_refused ext root : safe_names ext root = true -> refused root = false.
+Proof.
+  intro Hs. unfold safe_names in Hs. apply andb_prop in Hs as [_ Hs].
+  pose proof (safe_below_names ext root Hs) as H. rewrite Forall_forall in H.
+  unfold refused. destruct (existsb has_dotdot (names_below root)) eqn:E; [|reflexivity].
+  apply existsb_exists in E as [n [Hn Hd]]. rewrite (name_ok_no_dotdot ext n (H n Hn)) in Hd. discriminate.
+Qed.
+
+Lemma cli_events_safe ext out root : safe_names ext root = true -> cli_events ext out root = render ext out root.
+Proof. intro Hs. unfold cli_events. now rewrite (safe_not_refused ext root Hs). Qed.
+
+(* a tree with a '..' element in some board name is refused: nothing is touched, the CLI fails *)
+Lemma dotdot_refused ext out root f : refused root = true -> run (cli_events ext out root) f = (f, false).
+Proof. intro H. unfold cli_events. now rewrite H. Qed.
+
+(* Join with a name that has no '..' element never leaves the directory *)
+Lemma push_prefix out p seg : prefix out p -> str_eqb seg s_dotdot = false -> prefix out (push p seg).
+Proof.
+  intros Hp Hs. unfold push. destruct seg as [|c seg]; [exact Hp|].
+  destruct (str_eqb (c :: seg) s_dot); [exact Hp|]. rewrite Hs.
+  exact (prefix_trans _ _ _ Hp (ex_intro _ [c :: seg] eq_refl)).
+Qed.
+
+Lemma join_prefix out name : has_dotdot name = false -> prefix out (join out name).
+Proof.
+  unfold has_dotdot, join. generalize (split_slash name). intro segs.
+  assert (G : forall p, prefix out p -> existsb (fun s => str_eqb s s_dotdot) segs = false ->
+              prefix out (fold_left push segs p)).
+  { induction segs as [|x segs IH]; intros p Hp H; [exact Hp|]. cbn [existsb] in H.
+    apply orb_false_iff in H as [H1 H2]. cbn [fold_left]. apply IH; [|exact H2]. now apply push_prefix. }
+  apply G. apply prefix_refl.
+Qed.
+
+Lemma file_of_prefix_inside ext out s : prefix out s -> inside_file ext out (file_of ext s).
+Proof.
+  intros [r ->]. destruct r as [|x r] using rev_ind.
+  - left. now rewrite app_nil_r.
+  - right. rewrite app_assoc, file_of_snoc. exists (r ++ [x ++ ext]). now rewrite <- app_assoc.
+Qed.
+
+Lemma sub_prefix out c s k : prefix out s -> k = s_layers \/ k = s_scenarios \/ k = s_steps -> prefix out (sub c s k).
+Proof.
+  intros Hs Hk. destruct (sub_shape c s k Hk) as [E|E]; rewrite E; [exact Hs|].
+  exact (prefix_trans _ _ _ Hs (ex_intro _ [k] eq_refl)).
+Qed.
+
+(* whatever the board names are, once none has a '..' element every operation of render is inside *)
+Lemma render_inside_all ext : forall b,
+  forallb (fun n => negb (has_dotdot n)) (names_below b) = true ->
+  forall s out, prefix out s -> (is_nil (bname b) = true \/ has_dotdot (bname b) = false) ->
+    Forall (ev_inside ext out) (render ext s b).
+Proof.
+  induction b as [n fo ls ss ts Il Is It] using board_ind'. intros Hnd s out Hs Hn. cbn [bname] in Hn.
+  cbn [names_below] in Hnd. rewrite !forallb_app in Hnd. apply andb_prop in Hnd as [Hl Hnd].
+  apply andb_prop in Hnd as [Hss Ht].
+  set (stem := if is_nil n then s else join s n).
+  assert (Pst : prefix out stem).
+  { unfold stem. destruct Hn as [Hn|Hn]; [now rewrite Hn|]. destruct (is_nil n); [exact Hs|].
+    exact (prefix_trans _ _ _ Hs (join_prefix s n Hn)). }
+  assert (K : forall (l : list board) cs, prefix out cs ->
+            Forall (fun b => forallb (fun n => negb (has_dotdot n)) (names_below b) = true ->
+                     forall s out, prefix out s -> (is_nil (bname b) = true \/ has_dotdot (bname b) = false) ->
+                     Forall (ev_inside ext out) (render ext s b)) l ->
+            forallb (fun n => negb (has_dotdot n)) (flat_map (fun c => bname c :: names_below c) l) = true ->
+            Forall (ev_inside ext out) (flat_map (render ext cs) l)).
+  { intros l cs Hcs IH Hb. apply Forall_forall. intros e He. apply in_flat_map in He as [c [Hc He]].
+    rewrite Forall_forall in IH. rewrite forallb_forall in Hb.
+    assert (Hc1 : has_dotdot (bname c) = false).
+    { apply negb_true_iff. apply Hb. apply in_flat_map. exists c. split; [exact Hc | now left]. }
+    assert (Hc2 : forallb (fun n => negb (has_dotdot n)) (names_below c) = true).
+    { apply forallb_forall. intros x Hx. apply Hb. apply in_flat_map. exists c. split; [exact Hc | now right]. }
+    specialize (IH c Hc Hc2 cs out Hcs (or_intror Hc1)). rewrite Forall_forall in IH. now apply IH. }
+  cbn [render]. fold stem. cbv zeta.
+  apply Forall_app. split.
+  { destruct (nonempty ls || nonempty ss || nonempty ts); constructor; [exact Pst | constructor]. }
+  apply Forall_app. split; [apply K; auto; apply sub_prefix; auto|].
+  apply Forall_app. split; [apply K; auto; apply sub_prefix; auto|].
+  apply Forall_app. split; [apply K; auto; apply sub_prefix; auto|].
+  destruct fo; constructor; [|constructor]. cbn [ev_inside]. apply file_of_prefix_inside.
+  destruct (nonempty ls || nonempty ss || nonempty ts); [|exact Pst].
+  rewrite join_index. exact (prefix_trans _ _ _ Pst (ex_intro _ [s_index] eq_refl)).
+Qed.
+
+Lemma cli_events_inside_all ext out root : is_nil (bname root) = true ->
+  Forall (ev_inside ext out) (cli_events ext out root).
+Proof.
+  intro Hn. unfold cli_events, refused. destruct (existsb has_dotdot (names_below root)) eqn:E.
+  - constructor; [exact I | constructor].
+  - apply render_inside_all; [| apply prefix_refl | now left].
+    apply forallb_forall. intros n Hin. apply negb_true_iff.
+    destruct (has_dotdot n) eqn:Ed; [|reflexivity].
+    assert (H : existsb has_dotdot (names_below root) = true) by (apply existsb_exists; now exists n).
+    congruence.
+Qed.
+
+(* WHATEVER the board names are: the CLI creates, overwrites and deletes nothing outside the location *)
+Lemma cli_confined_all_names ext out root f :
+  is_nil (bname root) = true -> ancestors_exist out f = true ->
+  let f' := fst (run (cli_events ext out root) f) in
+  no_creation_outside ext out (files f) (files f') (dirs f) (dirs f') = true
+  /\ no_deletion_outside ext out (files f) (files f') (dirs f) (dirs f') = true.
+Proof. intros Hn HA. apply events_confined; [now apply cli_events_inside_all | exact HA]. Qed.
+
+Lemma render_confined ext out root f :
+  safe_names ext root = true -> ancestors_exist out f = true ->
+  let f' := fst (run (render ext out root) f) in
+  no_creation_outside ext out (files f) (files f') (dirs f) (dirs f') = true
+  /\ no_deletion_outside ext out (files f) (files f') (dirs f) (dirs f') = true.
+Proof. intros Hs HA. apply events_confined; [now apply render_events_inside | exact HA]. Qed.
+
 (* ---------- top-level forms ---------- *)
 
 Lemma outputs_inside_root ext out root : safe_names ext root = true ->
   forall p, In p (fst (outputs ext out root)) -> inside_file_b ext out p = true.
 Proof.
-  intros Hs p Hp. cbn [outputs fst] in Hp. pose proof (render_events_inside ext out root Hs) as H.
+  intros Hs p Hp. cbn [outputs fst] in Hp. rewrite (cli_events_safe ext out root Hs) in Hp.
+  pose proof (render_events_inside ext out root Hs) as H.
   rewrite Forall_forall in H. unfold writes in Hp. apply in_flat_map in Hp as [e [He Hp]].
-  destruct e as [q|p']; [contradiction|]. destruct Hp as [<-|[]].
+  destruct e as [q|p'|]; [contradiction| |contradiction]. destruct Hp as [<-|[]].
   apply inside_file_b_iff. exact (H _ He).
 Qed.
 
 Lemma removed_inside_root ext out root : safe_names ext root = true ->
   forall q, In q (snd (outputs ext out root)) -> inside_dir_b out q = true.
 Proof.
-  intros Hs q Hq. cbn [outputs snd] in Hq. pose proof (render_events_inside ext out root Hs) as H.
+  intros Hs q Hq. cbn [outputs snd] in Hq. rewrite (cli_events_safe ext out root Hs) in Hq.
+  pose proof (render_events_inside ext out root Hs) as H.
   rewrite Forall_forall in H. unfold removes in Hq. apply in_flat_map in Hq as [e [He Hq]].
-  destruct e as [q'|p']; [|contradiction]. destruct Hq as [<-|[]].
+  destruct e as [q'|p'|]; [|contradiction|contradiction]. destruct Hq as [<-|[]].
   apply prefix_b_iff. exact (H _ He).
 Qed.
 
 Lemma outputs_distinct ext out root : safe_names ext root = true ->
   NoDup (fst (outputs ext out root)) /\ length (fst (outputs ext out root)) = count_boards root.
 Proof.
-  intro Hs. unfold safe_names in Hs. apply andb_prop in Hs as [_ Hs]. cbn [outputs fst]. split.
+  intro Hs. cbn [outputs fst]. rewrite (cli_events_safe ext out root Hs).
+  unfold safe_names in Hs. apply andb_prop in Hs as [_ Hs]. split.
   - now apply render_nodup.
   - apply writes_count.
 Qed.
@@ -745,24 +881,14 @@ Definition x_victim : str := [46; 46; 47; 118; 105; 99; 116; 105; 109].   (* "..
 Definition leaf (n : str) : board := Board n false [] [] [].
 Definition x_fs : fsys := {| files := [([[119]; [118; 105; 99; 116; 105; 109]; [107]], 7)]; dirs := [[[119]]; [[119]; [118; 105; 99; 116; 105; 109]]] |}.
 
-(* a layer named "../victim" is written to /w/victim.svg, outside /w/out.svg + /w/out/ *)
-Lemma outputs_inside_root_refuted :
-  exists ext out root p, ext_wf ext = true /\ In p (fst (outputs ext out root)) /\ inside_file_b ext out p = false.
-Proof.
-  exists x_svg, x_out, (Board [] false [leaf x_victim] [] []), [[119]; [118; 105; 99; 116; 105; 109; 46; 115; 118; 103]].
-  split; [reflexivity|]. split; [left; reflexivity | reflexivity].
-Qed.
-
-(* ... and when it has boards of its own, /w/victim is RemoveAll'ed: the file /w/victim/k is gone *)
-Lemma removed_inside_root_refuted :
-  exists ext out root q, In q (snd (outputs ext out root)) /\ inside_dir_b out q = false
-    /\ ancestors_exist out x_fs = true
-    /\ no_deletion_outside ext out (files x_fs) (files (fst (run (render ext out root) x_fs)))
-         (dirs x_fs) (dirs (fst (run (render ext out root) x_fs))) = false.
-Proof.
-  exists x_svg, x_out, (Board [] false [Board x_victim false [leaf [120]] [] []] [] []), [[119]; [118; 105; 99; 116; 105; 109]].
-  split; [right; left; reflexivity|]. repeat split; reflexivity.
-Qed.
+(* a layer named "../victim" (with or without boards of its own) is refused: the run fails at once
+   and the sentinel file /w/victim/k of x_fs is still there *)
+Lemma dotdot_witness_refused :
+  let r1 := Board [] false [leaf x_victim] [] [] in
+  let r2 := Board [] false [Board x_victim false [leaf [120]] [] []] [] [] in
+  run (cli_events x_svg x_out r1) x_fs = (x_fs, false) /\ run (cli_events x_svg x_out r2) x_fs = (x_fs, false)
+  /\ outputs x_svg x_out r2 = ([], []).
+Proof. repeat split. Qed.
 
 (* a layer named "index" (root has layers only) gets the root board's file *)
 Lemma outputs_distinct_refuted_index :
